@@ -61,11 +61,29 @@ def gen_random(rnd, n):
             # insert an extra byte
             pos = rnd.randrange(len(b) + 1)
             out.append(b[:pos] + bytes([rnd.choice([0xff, 0x5f, 0x7f, 0x9f, 0xbf, 0x00, 0x60, 0x40])]) + b[pos:])
+    # indefinite-length strings chunked at arbitrary BYTE positions (RFC 8949 3.2.3: every chunk of a text string is itself
+    # a well-formed definite-length text string, so a boundary inside a multi-byte character is an error), alone and nested
+    texts = ["a\u00e9", "\u00e9", "\u20acx", "x\U0001f600", "\u00e9\u00e9", "ab", "\u0430\u0431\u0432"]
+    for s in texts:
+        raw = s.encode("utf-8")
+        for mt in (3, 2):
+            cuts = [[i] for i in range(0, len(raw) + 1)] + [sorted(rnd.sample(range(len(raw) + 1), 2)) for _ in range(3)]
+            for cut in cuts:
+                parts, prev = [], 0
+                for c in cut + [len(raw)]:
+                    parts.append(raw[prev:c])
+                    prev = c
+                body = b"".join(cborlib.head(mt, len(x), rnd.choice([0, 0, 1])) + x for x in parts)
+                enc = bytes([mt << 5 | 31]) + body + b"\xff"
+                out.append(enc)
+                out.append(b"\x81" + enc)
+                out.append(b"\xa1" + enc + b"\x00" if mt == 3 else b"\xa1\x00" + enc)
+                out.append(b"\xc1" + enc)
     # hostile heads: announced lengths far beyond the input
     for mt in (2, 3, 4, 5):
         for w, val in ((1, 200), (2, 60000), (4, 2**32 - 1), (8, 2**40), (8, 2**64 - 1), (4, 2**28)):
             out.append(cborlib.head(mt, val, w) + b"\x00\x01")
-    return out[: n + 24]
+    return out
 
 
 def run():
